@@ -56,6 +56,8 @@ var Types = []T{
 	{17, "Shape", "(n 5)", "interface", true, false},
 	{18, "UnsafeP", "(p u8)", "unsafe-pointer", true, false},
 	{19, "UP", "(n 6)", "unsafe-pointer", true, false},
+	// the predeclared error as an ordinary (non-final) value type
+	{20, "error", "iface", "interface", true, false},
 }
 
 // ErrT is a type used where an `error` is expected.
@@ -472,6 +474,27 @@ func ob18(v unsafe.Pointer) int {
 }
 func mk19(n int) UP { return UP(mk18(n)) }
 func ob19(v UP) int { return ob18(unsafe.Pointer(v)) }
+// valErr is the error VALUE type behind payloads of type 20.
+type valErr int
+
+func (e valErr) Error() string { return "val" + itoa(int(e)) }
+
+func mk20(n int) error {
+	if n == 0 {
+		return nil
+	}
+	return valErr(n)
+}
+func ob20(v error) int {
+	if v == nil {
+		return 0
+	}
+	e, ok := v.(valErr)
+	if !ok || e == 0 {
+		return -1
+	}
+	return int(e)
+}
 func mk16(n int) struct {
 	A int "cell:\"%5d\""
 } {
